@@ -521,27 +521,32 @@ def sym_grad_occ_formula():
 
 
 def nat_grad_occ(rng):
-    """Central-difference slope of the band energy vs 2 Re<get_grad_occ, D> at orthonormal W, weighted k-points."""
+    """Central-difference slope of the band energy vs 2 Re<get_grad_occ, D> at orthonormal W, weighted k-points; one and two spin channels
+    (different orbitals per channel)."""
     from eminus.band_minimizer import get_grad_occ, scf_step_occ
     from eminus.dft import orth
 
-    scf, at = _native_scf(Nspin=1, xc="lda,pw")
-    scf.W = orth(at, [rnd(rng, 1, len(at.Gk2c[ik]), at.occ.Nstate) for ik in range(at.kpts.Nk)])
-    scf._precompute()
-    W0 = [np.asarray(w) for w in scf.W]
-    D = [rnd(rng, *w.shape) for w in W0]
-    D = [d * np.linalg.norm(w) / np.linalg.norm(d) for w, d in zip(W0, D)]
+    worst = 0.0
+    for Nspin in (1, 2):
+        scf, at = _native_scf(Nspin=Nspin, xc="lda,pw")
+        scf.W = orth(at, [rnd(rng, Nspin, len(at.Gk2c[ik]), at.occ.Nstate) for ik in range(at.kpts.Nk)])
+        scf._precompute()
+        W0 = [np.asarray(w) for w in scf.W]
+        D = [rnd(rng, *w.shape) for w in W0]
+        D = [d * np.linalg.norm(w) / np.linalg.norm(d) for w, d in zip(W0, D)]
 
-    def E(t):
-        return scf_step_occ(scf, [w + t * d for w, d in zip(W0, D)])
+        def E(t, W0=W0, D=D, scf=scf):
+            return scf_step_occ(scf, [w + t * d for w, d in zip(W0, D)])
 
-    h = 1e-3
-    slope = (8 * (E(h) - E(-h)) - (E(2 * h) - E(-2 * h))) / (12 * h)
-    lin = 0
-    for ik in range(at.kpts.Nk):
-        g = get_grad_occ(scf, ik, 0, W0, **scf._precomputed)
-        lin += 2 * np.real(np.sum(np.asarray(g).conj() * D[ik][0]))
-    return abs(slope - lin) / max(1.0, abs(slope))
+        h = 1e-3
+        slope = (8 * (E(h) - E(-h)) - (E(2 * h) - E(-2 * h))) / (12 * h)
+        lin = 0
+        for ik in range(at.kpts.Nk):
+            for sp in range(Nspin):
+                g = get_grad_occ(scf, ik, sp, W0, **scf._precomputed)
+                lin += 2 * np.real(np.sum(np.asarray(g).conj() * D[ik][sp]))
+        worst = max(worst, abs(slope - lin) / max(1.0, abs(slope)))
+    return worst
 
 
 def nat_grad_nonconstant(rng):
